@@ -31,11 +31,13 @@ ZSIM = r'''package runtime
 
 var simRandOn uint32
 var simRandState uint64
+var simSelState uint64
 
 // SimSetRand turns deterministic select/map/math-rand randomness on (seed != 0)
 // or off for goroutines that run inside a synctest bubble.
 func SimSetRand(seed uint64) {
 	simRandState = seed
+	simSelState = seed ^ 0x2545f4914f6cdd1d
 	if seed != 0 {
 		simRandOn = 1
 	} else {
@@ -57,9 +59,15 @@ func simnext() uint64 {
 	return z ^ (z >> 31)
 }
 
+// select draws from its own stream, so that one-off rand() calls of lazily
+// initialised library state do not shift the select choices of a run.
 func simselectrandn(n uint32) uint32 {
 	if simRandOn != 0 && getg().bubble != nil {
-		return uint32(simnext() % uint64(n))
+		simSelState += 0x9e3779b97f4a7c15
+		z := simSelState
+		z = (z ^ (z >> 30)) * 0xbf58476d1ce4e5b9
+		z = (z ^ (z >> 27)) * 0x94d049bb133111eb
+		return uint32((z ^ (z >> 31)) % uint64(n))
 	}
 	return cheaprandn(n)
 }
